@@ -591,7 +591,7 @@ def sub_rules(P, E):
             if ok:
                 og = set()
                 for t in cb.operand_prov(ks[0].args[0]):
-                    og |= P.global_cell(cb, t)
+                    og |= P.global_cell(cb, t, through_helpers=True)
                 ok = bool(og) and all(g[0] == isb.id and g[1] == "param" and g[2] == 2 for g in og)
             r.instance((cb.nid, name), True, None)
             if not ok:
@@ -761,7 +761,7 @@ def s_wiring(P, E):
         from absint import SlotInterp  # presence of the removed entry decides whether it is run
         # structural: the run call's receiver derives from the removed value, and is reached on the Some edge only
         for c in runs:
-            from_removed = any("unscribers" in g[3] and "[]" in g[3] for t in ab.operand_prov(c.args[0]) for g in P.global_cell(ab, t))
+            from_removed = any("unscribers" in g[3] and "[]" in g[3] for t in ab.operand_prov(c.args[0]) for g in P.global_cell(ab, t, through_helpers="add"))
             if not from_removed:
                 r.violate((ab.nid, "runs something else"), "upstream_abort_observe runs an action that is not the removed entry", body=ab, line=c.line)
     return r
